@@ -164,6 +164,11 @@ func verifRequestFor(route, rid, model string) (target string, hdrs []string, bo
 	if model == "" {
 		model = "m1"
 	}
+	if model == "mctl" {
+		// a model name nobody lists AND that contains control characters and a quote (written with JSON escapes):
+		// whatever error text olla builds around it must still be a well-formed error body
+		model = `mx\u007f\u0007\"q\u00e9`
+	}
 	defer func() { body = strings.Replace(body, `"model":"m1"`, `"model":"`+model+`"`, 1) }()
 	target = "/olla/proxy/v1/chat/completions"
 	body = fmt.Sprintf(`{"model":"m1","messages":[{"role":"user","content":"hello %s"}],"stream":false}`, rid)
